@@ -327,7 +327,7 @@ func (w *World) execOp(op hx.Zs) []hx.Zs {
 				ret = append(wire, ret...)
 			}
 		}
-	case 16, 17, 18, 19: // client-side requests / bookkeeping
+	case 16, 17, 18, 19, 23, 24: // client-side requests / bookkeeping
 		f := r.n()
 		e := r.eaddr()
 		ra := r.faddr()
@@ -347,6 +347,12 @@ func (w *World) execOp(op hx.Zs) []hx.Zs {
 			retB(fl.HasSubscriptionToRemote(ra.model()))
 		case 19:
 			retB(fl.HasBindingToRemote(ra.model()))
+		case 23:
+			_, err := fl.RemoveRemoteSubscription(ra.model())
+			retB(err == nil)
+		case 24:
+			_, err := fl.RemoveRemoteBinding(ra.model())
+			retB(err == nil)
 		}
 	case 20: // ReadData
 		f, fn := r.n(), r.n()
